@@ -179,6 +179,44 @@ def export_ro(ctx, R):
                     base = ntext(nd.value)
                     if base.startswith("%s.options" % selfn) or base.startswith("%s.items" % selfn):
                         R.bad("C10.EXPORT-RO", "%s|%s" % (q, ntext(nd)[:40]), where(g, nd), "`%s` writes into the timeline's options/items during export: repeated exports differ" % ntext(nd)[:60])
+    # persistent state reached through aliases: `for item in self.items: item.x = ...` on the export call graph
+    for backend in (SVG, TEX):
+        f = P.func(backend + ".export")
+        reach = cg.reachable([f.qual], stop=LATEX_ONLY)
+        for q in sorted(reach):
+            g = P.funcs.get(q)
+            if g is None or g.cls is None or not g.cls.qual.startswith("timeline.Timeline") or not g.params:
+                continue
+            selfn = g.params[0]
+            persistent = {}
+            for nd in walk_local(g.node):
+                src = None
+                tgt = None
+                if isinstance(nd, ast.For):
+                    src, tgt = nd.iter, nd.target
+                elif isinstance(nd, ast.Assign) and len(nd.targets) == 1:
+                    src, tgt = nd.value, nd.targets[0]
+                if src is not None and isinstance(src, (ast.Attribute, ast.Subscript, ast.Name)):
+                    st_ = ntext(src)
+                    if st_.startswith("%s.items" % selfn) or st_.startswith("%s.options" % selfn):
+                        for x in ast.walk(tgt):
+                            if isinstance(x, ast.Name):
+                                persistent[x.id] = st_
+            for nd in walk_local(g.node):
+                base = None
+                if isinstance(nd, ast.Attribute) and isinstance(nd.ctx, (ast.Store, ast.Del)):
+                    base = nd.value
+                elif isinstance(nd, ast.Subscript) and isinstance(nd.ctx, (ast.Store, ast.Del)):
+                    base = nd.value
+                elif isinstance(nd, ast.Call) and isinstance(nd.func, ast.Attribute) and nd.func.attr in ("append", "extend", "update", "pop", "clear", "sort", "insert", "remove", "setdefault", "reverse"):
+                    base = nd.func.value
+                if base is None:
+                    continue
+                r = base
+                while isinstance(r, (ast.Attribute, ast.Subscript)):
+                    r = r.value
+                if isinstance(r, ast.Name) and r.id in persistent:
+                    R.bad("C10.EXPORT-RO", "%s|%s" % (q, ntext(nd)[:40]), where(g, nd), "`%s` changes an object reached from %s during export: the next export of the same timeline starts from different state" % (ntext(nd)[:60], persistent[r.id]))
     # nodes are rebuilt from the items on every export
     g = P.func("timeline.Timeline.get_nodes")
     news = [c for c in calls_in(g.node) if ntext(c.func) == "Node"]
@@ -215,4 +253,19 @@ def nondet(ctx, R):
     nondet_scan(ctx, Filter(R), "C10.NONDET", roots, skip=LATEX_ONLY)
 
 
-RULES = [noglobalmut, export_ro, noglobalwrite, nondet]
+def _optsmerge(ctx, R):
+    from .c11 import opts_merge
+    return opts_merge(ctx, R)
+
+
+_optsmerge.rule_id = "GEN.OPTS-MERGE"
+
+
+def _optflow(ctx, R):
+    from .c04 import optflow
+    return optflow(ctx, R)
+
+
+_optflow.rule_id = "C04.OPTFLOW"
+
+RULES = [noglobalmut, export_ro, noglobalwrite, nondet, _optsmerge, _optflow]
